@@ -63,6 +63,15 @@ impl<'a> ParserBuilder<'a> {
         psess: &'a rustc_session::parse::ParseSess,
         input: Input,
     ) -> Result<RawParser<'a>, Vec<Diag<'a>>> {
+        #[cfg(rustfmt_verif)]
+        {
+            let name = match input {
+                Input::File(ref file) => file.display().to_string(),
+                Input::Text(..) => "stdin".to_owned(),
+            };
+            crate::verif_hooks::set_current_input(&name);
+            crate::verif_hooks::fault_point("parser_new", &name);
+        }
         match input {
             Input::File(ref file) => new_parser_from_file(psess, file, None),
             Input::Text(text) => new_parser_from_source_str(
@@ -71,6 +80,17 @@ impl<'a> ParserBuilder<'a> {
                 text,
             ),
         }
+    }
+}
+
+#[cfg(rustfmt_verif)]
+struct FaultOnParse<'p, 'a>(&'p mut RawParser<'a>);
+
+#[cfg(rustfmt_verif)]
+impl<'p, 'a> FaultOnParse<'p, 'a> {
+    fn parse_crate_mod(&mut self) -> rustc_errors::PResult<'a, ast::Crate> {
+        crate::verif_hooks::fault_point("parse_crate_mod", &crate::verif_hooks::current_input());
+        self.0.parse_crate_mod()
     }
 }
 
@@ -104,6 +124,8 @@ impl<'a> Parser<'a> {
         span: Span,
     ) -> Result<(ast::AttrVec, ThinVec<ptr::P<ast::Item>>, Span), ParserError> {
         let result = catch_unwind(AssertUnwindSafe(|| {
+            #[cfg(rustfmt_verif)]
+            crate::verif_hooks::fault_point("parse_file_as_module", &path.display().to_string());
             let mut parser =
                 unwrap_or_emit_fatal(new_parser_from_file(psess.inner(), path, Some(span)));
             match parser.parse_mod(exp!(Eof)) {
@@ -157,6 +179,10 @@ impl<'a> Parser<'a> {
     fn parse_crate_mod(&mut self) -> Result<ast::Crate, ParserError> {
         let mut parser = AssertUnwindSafe(&mut self.parser);
         let err = Err(ParserError::ParsePanicError);
+        // Shadow the parser with a wrapper whose `parse_crate_mod` hits a fault point first,
+        // so that the injected panic unwinds through the `catch_unwind` below.
+        #[cfg(rustfmt_verif)]
+        let mut parser = AssertUnwindSafe(FaultOnParse(parser.0));
         match catch_unwind(move || parser.parse_crate_mod()) {
             Ok(Ok(k)) => Ok(k),
             Ok(Err(db)) => {
